@@ -189,8 +189,7 @@ def unfold_wf(E, D):
     BNHt = blank_node_hash(E)
     for (Dn, Dp, js, rv) in E.ghost.get("sym_stores", []):
         if Dn.eq(D):
-            ok_rv = z3.And(z3.Implies(HRef.is_RHash(rv), z3.And(z3.Length(HRef.rhash(rv)) == 32, HRef.rhash(rv) != BNHt)),
-                           z3.Implies(HRef.is_REmb(rv), z3.And(hwfp(HRef.remb(rv)), z3.Not(HNode.is_HBlank(HRef.remb(rv))))))
+            ok_rv = ok_reference(E, rv)
             E.assume(mk_bool(z3.Implies(z3.And(hwf_children(E, Dp), ok_rv), hwf_children(E, Dn))))
             E.assume(mk_bool(z3.Implies(z3.Not(HRef.is_RBlank(rv)), entry_count(Dn) >= entry_count(Dp))))
             E.assume(mk_bool(entry_count(Dn) >= entry_count(Dp) - 1))
@@ -225,16 +224,16 @@ def unfold_wf_deep(E, D, depth=3):
 
 def hwf(E, D, depth=1):
     """well-formedness of a node as the trie writes it (one level; embedded children deeply through hwfp)"""
-    BNH = blank_node_hash(E)
-    ok_ref = lambda r: z3.And(z3.Implies(HRef.is_RHash(r), z3.And(z3.Length(HRef.rhash(r)) == 32, HRef.rhash(r) != BNH)),
-                              z3.Implies(HRef.is_REmb(r), z3.And(hwfp(HRef.remb(r)), z3.Not(HNode.is_HBlank(HRef.remb(r))))))
+    ok_ref = lambda r: ok_reference(E, r)
     cnt = z3.If(z3.Length(HNode.bval(D)) > 0, 1, 0)
     for i in range(16):
         cnt = cnt + z3.If(HRef.is_RBlank(child(D, i)), 0, 1)
     return z3.And(
         z3.Implies(HNode.is_HLeaf(D), z3.And(allnib(HNode.lpath(D)), z3.Length(HNode.lval(D)) > 0)),
+        # an extension has a non-empty path and leads to a branch (Yellow Paper: otherwise the paths are merged)
         z3.Implies(HNode.is_HExt(D), z3.And(allnib(HNode.epath(D)), z3.Length(HNode.epath(D)) > 0, ok_ref(HNode.echild(D)),
-                                            z3.Not(HRef.is_RBlank(HNode.echild(D))))),
+                                            z3.Not(HRef.is_RBlank(HNode.echild(D))),
+                                            HNode.is_HBranch(deref(E, HNode.echild(D))))),
         # a branch keeps at least two of its 17 entries (otherwise it is normalised away)
         z3.Implies(HNode.is_HBranch(D), z3.And(cnt >= 2, *[ok_ref(child(D, i)) for i in range(16)])))
 
@@ -246,13 +245,21 @@ def entry_count(D):
     return cnt
 
 
+def ok_reference(E, r):
+    """a reference as the trie writes it (the Yellow Paper's n(.)): a hash is 32 bytes, is not the blank-node hash and
+    stands for a node whose rlp has at least 32 bytes; an embedded node is well formed, not blank and its rlp is
+    shorter than 32 bytes"""
+    BNH = blank_node_hash(E)
+    return z3.And(z3.Implies(HRef.is_RHash(r), z3.And(z3.Length(HRef.rhash(r)) == 32, HRef.rhash(r) != BNH,
+                                                     z3.Length(unk(HRef.rhash(r))) >= 32)),
+                  z3.Implies(HRef.is_REmb(r), z3.And(hwfp(HRef.remb(r)), z3.Not(HNode.is_HBlank(HRef.remb(r))),
+                                                    z3.Length(rlpenc(HRef.remb(r))) < 32)))
+
+
 def hwf_children(E, D):
     """the references of a branch are well formed (the branch itself may have lost an entry and await
     normalisation)"""
-    BNH = blank_node_hash(E)
-    ok_ref = lambda r: z3.And(z3.Implies(HRef.is_RHash(r), z3.And(z3.Length(HRef.rhash(r)) == 32, HRef.rhash(r) != BNH)),
-                              z3.Implies(HRef.is_REmb(r), z3.And(hwfp(HRef.remb(r)), z3.Not(HNode.is_HBlank(HRef.remb(r))))))
-    return z3.And(*[ok_ref(child(D, i)) for i in range(16)])
+    return z3.And(*[ok_reference(E, child(D, i)) for i in range(16)])
 
 
 # ---------------------------------------------------------------------------------------------------
